@@ -229,3 +229,161 @@ pub async fn run_link(sc: &Value) {
         tick();
     }
 }
+
+/// transport-level scenario: the real transport reader (link layer + assembler) and writer
+pub async fn run_transport(sc: &Value) {
+    let cfg = &sc["cfg"];
+    let cap = cfg["cap"].as_u64().unwrap_or(2048) as usize;
+    let local = cfg["local"].as_u64().unwrap_or(1024) as u16;
+    let level = decode_level(cfg["decode"].as_str().unwrap_or("nothing"));
+    emit(json!({"k":"reset","id":sc["id"],"cfg":cfg,"meta":sc.get("meta").cloned().unwrap_or(Value::Null)}));
+    let _ = take_panic();
+    let (mine, theirs) = tokio::io::duplex(1 << 20);
+    let (_rd, mut wr) = tokio::io::split(mine);
+    let mut reader = shim::TransportReadProbe::new(
+        dnp3::link::LinkErrorMode::Discard, false, cap, false, false, local, level, theirs);
+    // writer under test writes into its own pipe
+    let (wmine, wtheirs) = tokio::io::duplex(1 << 20);
+    let (mut wrd, _wwr) = tokio::io::split(wmine);
+    let mut writer = shim::TransportWriteProbe::new(true, 1, level, wtheirs);
+    let mut wpending: Vec<u8> = Vec::new();
+
+    let steps = sc["steps"].as_array().cloned().unwrap_or_default();
+    for (i, st) in steps.iter().enumerate() {
+        set_current(format!("transport scenario {} step {}", sc["id"], i));
+        let k = st["k"].as_str().unwrap_or("");
+        let mut line = Map::new();
+        line.insert("k".into(), json!(k));
+        match k {
+            "seg" => {
+                let fir = st["fir"].as_bool().unwrap_or(false);
+                let fin = st["fin"].as_bool().unwrap_or(false);
+                let seq = st["seq"].as_u64().unwrap_or(0) as u8;
+                let src = st["src"].as_u64().unwrap_or(1) as u16;
+                let bc = st["bc"].as_bool().unwrap_or(false);
+                let n = st["n"].as_u64().unwrap_or(1) as usize;
+                let id = st["id"].as_u64().unwrap_or(0) as u8;
+                for f in ["fir", "fin", "seq", "src", "bc", "n", "id"] {
+                    line.insert(f.into(), st[f].clone());
+                }
+                let mut payload = vec![(if fin { 0x80 } else { 0 }) | (if fir { 0x40 } else { 0 }) | (seq & 0x3F)];
+                payload.extend(std::iter::repeat(id).take(n));
+                let dst = if bc { 0xFFFF } else { local };
+                let frame = codec::build_link_frame(0xC4, dst, src, &payload);
+                let _ = wr.write_all(&frame).await;
+                let mut delivered = Vec::new();
+                loop {
+                    match tokio::time::timeout(Duration::from_millis(1), reader.next()).await {
+                        Err(_) => break,
+                        Ok(Err(_)) => {
+                            line.insert("closed".into(), json!(true));
+                            break;
+                        }
+                        Ok(Ok(shim::TransportItem::Fragment { id: _, source, broadcast, data })) => {
+                            // run-length decode the payload into segment identities
+                            let mut parts: Vec<u64> = Vec::new();
+                            let mut lens: Vec<u64> = Vec::new();
+                            for b in &data {
+                                if parts.last() == Some(&(*b as u64)) {
+                                    *lens.last_mut().unwrap() += 1;
+                                } else {
+                                    parts.push(*b as u64);
+                                    lens.push(1);
+                                }
+                            }
+                            delivered.push(json!({"src": source, "bc": broadcast.is_some(), "parts": parts,
+                                                  "lens": lens, "len": data.len()}));
+                        }
+                        Ok(Ok(_)) => {}
+                    }
+                }
+                line.insert("delivered".into(), json!(delivered));
+            }
+            "write" => {
+                let len = st["len"].as_u64().unwrap_or(1) as usize;
+                let frag: Vec<u8> = (0..len).map(|x| (x * 7 + 3) as u8).collect();
+                let res = writer.write(1024, &frag).await;
+                quiesce().await;
+                let mut buf = vec![0u8; 1 << 16];
+                loop {
+                    match tokio::time::timeout(Duration::from_millis(0), wrd.read(&mut buf)).await {
+                        Ok(Ok(n)) if n > 0 => wpending.extend_from_slice(&buf[..n]),
+                        _ => break,
+                    }
+                }
+                let (frames, rest, err) = codec::parse_clean_stream(&wpending);
+                wpending = rest;
+                let mut segs = Vec::new();
+                let mut re = codec::Reassembler::new();
+                let mut got: Option<Vec<u8>> = None;
+                let mut bad = err.is_some() || res.is_err();
+                for f in &frames {
+                    if f.payload.is_empty() {
+                        bad = true;
+                        continue;
+                    }
+                    let h = f.payload[0];
+                    segs.push(json!({"fir": h & 0x40 != 0, "fin": h & 0x80 != 0, "seq": (h & 0x3F) as u64,
+                                     "n": f.payload.len() - 1, "dst": f.dst, "src": f.src,
+                                     "fn": f.func_name()}));
+                    match re.push(&f.payload) {
+                        Ok(Some(x)) => got = Some(x),
+                        Ok(None) => {}
+                        Err(_) => bad = true,
+                    }
+                }
+                line.insert("len".into(), json!(len));
+                line.insert("segs".into(), json!(segs));
+                line.insert("same".into(), json!(!bad && got.as_deref() == Some(&frag[..])));
+            }
+            "rt" => {
+                // real writer -> bytes -> (re-chunked) -> real reader
+                let len = st["len"].as_u64().unwrap_or(1) as usize;
+                let frag: Vec<u8> = (0..len).map(|x| (x * 13 + 1) as u8).collect();
+                let _ = writer.write(1024, &frag).await;
+                quiesce().await;
+                let mut bytes = Vec::new();
+                let mut buf = vec![0u8; 1 << 16];
+                loop {
+                    match tokio::time::timeout(Duration::from_millis(0), wrd.read(&mut buf)).await {
+                        Ok(Ok(n)) if n > 0 => bytes.extend_from_slice(&buf[..n]),
+                        _ => break,
+                    }
+                }
+                let sizes: Vec<usize> = st["chunks"].as_array().map(|a| a.iter().map(|x| x.as_u64().unwrap_or(1) as usize).collect()).unwrap_or_default();
+                let mut pos = 0;
+                let mut si = 0;
+                let mut got: Option<(u16, Vec<u8>)> = None;
+                let mut extra = 0;
+                while pos < bytes.len() {
+                    let n = if sizes.is_empty() { bytes.len() } else { sizes[si % sizes.len()].max(1) };
+                    si += 1;
+                    let end = (pos + n).min(bytes.len());
+                    let _ = wr.write_all(&bytes[pos..end]).await;
+                    pos = end;
+                    loop {
+                        match tokio::time::timeout(Duration::from_millis(1), reader.next()).await {
+                            Ok(Ok(shim::TransportItem::Fragment { source, data, .. })) => {
+                                if got.is_some() { extra += 1; }
+                                got = Some((source, data));
+                            }
+                            _ => break,
+                        }
+                    }
+                }
+                line.insert("len".into(), json!(len));
+                line.insert("nchunks".into(), json!(si));
+                line.insert("ok".into(), json!(extra == 0 && got.as_ref().map(|g| g.0 == 1 && g.1 == frag).unwrap_or(false)));
+                line.insert("fits".into(), json!(len <= cap));
+                line.insert("delivered".into(), json!(got.is_some()));
+            }
+            "treset" => {
+                reader.reset();
+                writer.reset();
+            }
+            _ => {}
+        }
+        emit(Value::Object(line));
+        tick();
+    }
+}
